@@ -8,6 +8,8 @@ package main
 
 import (
 	"fmt"
+	"os"
+	"regexp"
 	"sort"
 	"strings"
 
@@ -48,6 +50,55 @@ func rel(g *gstate, p string, r *common.RNG) string {
 		return "$WORK"
 	}
 	return "$WORK" + p[len(absWork):]
+}
+
+// rePat turns a word of a text into a pattern of the model's fragment that still matches it
+// (anchors are the exception: they may or may not match, the evaluator decides)
+func rePat(r *common.RNG, w string) string {
+	if w == "" || strings.ContainsAny(w, `\.+*?()|[]{}^$ `) {
+		return w
+	}
+	n := len(w)
+	switch r.Intn(14) {
+	case 0:
+		return "^" + w
+	case 1:
+		return w + "$"
+	case 2:
+		return "^" + w + "$"
+	case 3:
+		if n >= 2 {
+			return w[:1] + "." + w[2:]
+		}
+	case 4:
+		return "[" + w[:1] + "z]" + w[1:]
+	case 5:
+		return w + "|nomatch"
+	case 6:
+		return "nomatch|" + w
+	case 7:
+		return w + "+"
+	case 8:
+		return w + "?"
+	case 9:
+		if n >= 2 {
+			return w[:1] + ".*" + w[n-1:]
+		}
+	case 10:
+		return "[^z]" + w[1:]
+	case 11:
+		return w[:n-1] + "[a-z0-9_-]"
+	}
+	return w
+}
+
+// reCount is what -count=N must be for the pattern to be met on text
+func reCount(p, text string) int {
+	re, err := regexp.Compile("(?m)" + p)
+	if err != nil {
+		return 0
+	}
+	return len(re.FindAllString(text, -1))
 }
 
 func q(w string) string {
@@ -152,9 +203,9 @@ func (x *genCtx) okLine() string {
 		return fmt.Sprintf("exec %s lines %s %s %s %s", h, w, pick(r, wordsPool), w, pick(r, wordsPool))
 	case 3:
 		if r.Chance(1, 2) {
-			return "stdout " + q(x.outWord(g.out))
+			return "stdout " + q(rePat(r, x.outWord(g.out)))
 		}
-		return "! stdout nomatch-zzz"
+		return "! stdout " + pick(r, []string{"nomatch-zzz", "^nomatch", "no.atch$", "zz+y|yy+z"})
 	case 4:
 		w := x.outWord(g.out)
 		if r.Chance(1, 3) {
@@ -169,7 +220,8 @@ func (x *genCtx) okLine() string {
 				return fmt.Sprintf("stdout -count=%d ^%s$", n, w)
 			}
 		}
-		return fmt.Sprintf("stdout -count=%d %s", strings.Count(g.out, w), q(w))
+		p := rePat(r, w)
+		return fmt.Sprintf("stdout -count=%d %s", reCount(p, g.out), q(p))
 	case 35:
 		// matches that would overlap are counted once: "aa" in "aaaa aaa" is 3, not 5
 		switch r.Intn(3) {
@@ -181,9 +233,9 @@ func (x *genCtx) okLine() string {
 		return fmt.Sprintf("exec %s write rep%d.txt xx xxx xx\ngrep -count=3 xx rep%d.txt", h, x.n, x.n)
 	case 5:
 		if r.Chance(1, 2) {
-			return "stderr " + q(x.outWord(g.err))
+			return "stderr " + q(rePat(r, x.outWord(g.err)))
 		}
-		return "! stderr nomatch-zzz"
+		return "! stderr " + pick(r, []string{"nomatch-zzz", "^nomatch$", "nom[a-z]tch"})
 	case 6, 7:
 		return fmt.Sprintf("exec %s write %s %s %s", h, x.newName(), pick(r, wordsPool), pick(r, wordsPool))
 	case 8:
@@ -197,13 +249,14 @@ func (x *genCtx) okLine() string {
 		if f, ok := x.someFile(); ok {
 			p, _ := g.abs(strings.Replace(f, "$WORK", absWork, 1))
 			w := x.outWord(g.files[p])
+			pat := rePat(r, w)
 			switch r.Intn(3) {
 			case 0:
-				return "grep " + q(w) + " " + f
+				return "grep " + q(pat) + " " + f
 			case 1:
-				return "! grep nomatch-zzz " + f
+				return "! grep " + pick(r, []string{"nomatch-zzz", "^nomatch", "nom.tch$"}) + " " + f
 			}
-			return fmt.Sprintf("grep -count=%d %s %s", strings.Count(g.files[p], w), q(w), f)
+			return fmt.Sprintf("grep -count=%d %s %s", reCount(pat, g.files[p]), q(pat), f)
 		}
 	case 11:
 		if f, ok := x.someFile(); ok {
@@ -266,7 +319,21 @@ func (x *genCtx) okLine() string {
 		}
 	case 26:
 		if f, ok := x.someFile(); ok {
-			return "chmod 444 " + f + "\nexists -readonly " + f
+			perms := []string{"644", "600", "640", "755", "700", "664"}
+			if os.Geteuid() == 0 {
+				// root is not stopped by the bits, so read-only and unreadable modes can be used freely
+				perms = append(perms, "444", "444", "400", "555", "000", "222")
+			}
+			p := pick(r, perms)
+			cp := x.newName()
+			switch r.Intn(3) {
+			case 0:
+				return "chmod " + p + " " + f + "\nexists -readonly " + f
+			case 1:
+				// cp hands the mode of the source to a new file
+				return "chmod " + p + " " + f + "\ncp " + f + " " + cp + "\nexists -readonly " + cp
+			}
+			return "chmod " + p + " " + f
 		}
 	case 27:
 		// every guard holds: the command must run (a marker makes that visible)
@@ -334,16 +401,16 @@ func (x *genCtx) failLine() string {
 	case 8:
 		return pick(r, []string{"frobnicate x", "nosuchcmd", "exe tshelper", "cdd sub"})
 	case 9:
-		w := x.outWord(g.out)
-		if n := strings.Count(g.out, w); n >= 2 && r.Chance(1, 2) {
+		w := rePat(r, x.outWord(g.out))
+		if n := reCount(w, g.out); n >= 2 && r.Chance(1, 2) {
 			return fmt.Sprintf("stdout -count=%d %s", 1+r.Intn(n-1), q(w)) // too few
 		}
-		return fmt.Sprintf("stdout -count=%d %s", strings.Count(g.out, w)+1+r.Intn(3), q(w))
+		return fmt.Sprintf("stdout -count=%d %s", reCount(w, g.out)+1+r.Intn(3), q(w))
 	case 10:
-		return "stdout nomatch-zzz"
+		return "stdout " + pick(r, []string{"nomatch-zzz", "^nomatch", "n.match$", "no+match|zz"})
 	case 11:
 		if strings.TrimSpace(g.out) != "" {
-			return "! stdout " + q(x.outWord(g.out))
+			return "! stdout " + q(rePat(r, x.outWord(g.out)))
 		}
 	case 12:
 		if !x.c.HasCond {
@@ -478,9 +545,9 @@ func (x *genCtx) wildLine() string {
 	case 11:
 		return "unix2dos " + p()
 	case 12:
-		return pick(r, []string{"", "! "}) + "grep " + pick(r, []string{"alpha", "^alpha", "beta$", "^x1$", "'a b'", "a.b", "a*", "", "^", "$X"}) + " " + p()
+		return pick(r, []string{"", "! "}) + "grep " + pick(r, []string{"alpha", "^alpha", "beta$", "^x1$", "'a b'", "a.b", "a*", "", "^", "$X", "al.ha", "[a-c]lpha", "be+ta", "x1|zz", "'^a.*a$'", "[^a]eta", "alpha?", "(alpha)", "al{2}", `\.`}) + " " + p()
 	case 13:
-		return pick(r, []string{"", "! "}) + pick(r, []string{"stdout ", "stderr "}) + pick(r, []string{"", "-count=1 ", "-count=2 ", "-count=+1 "}) + pick(r, []string{"alpha", "^alpha", "beta$", "^x1$", "'alpha beta'", "gamma$", "^hello beta$"})
+		return pick(r, []string{"", "! "}) + pick(r, []string{"stdout ", "stderr "}) + pick(r, []string{"", "-count=1 ", "-count=2 ", "-count=+1 "}) + pick(r, []string{"alpha", "^alpha", "beta$", "^x1$", "'alpha beta'", "gamma$", "'^hello beta$'", "al.ha", "[a-c]l+pha", "b.*a", "zz|beta", "'^$'", "[^b]eta", "x?1"})
 	case 14:
 		return fmt.Sprintf("exec %s %s", h, pick(r, []string{"pwd", "env PWD", "env WORK", "env X", "env HOME", "cat", "lines a b", "print 'no newline'", "printerr oops", "exit 0", "exit 256", "exit", "exit x", "both a", "write", "echo", "writeraw raw.txt 'a b'", "write sub/new.txt w", "write ../escape.txt w", "write lnk w", "write dangling w", "sleep extra", "cat x"}))
 	case 15:
@@ -569,6 +636,18 @@ func genFiles(r *common.RNG, c *Case) {
 		}
 		c.Files = append(c.Files, AFile{Name: name, Data: b.String()})
 	}
+	if len(c.Files) > 0 && r.Chance(1, 6) {
+		// a second entry of the same name: overwrites, or fails setup under RequireUniqueNames
+		c.Files = append(c.Files, AFile{Name: c.Files[r.Intn(len(c.Files))].Name, Data: pick(r, wordsPool) + " again\n"})
+	}
+}
+
+// epilogue: lines that dump what is left of the state into files of the work directory, so
+// that the final stdin, environment and current directory take part in the tree comparison
+var epilogue = []string{
+	"exec " + helperName + " cat", "cp stdout $WORK/zz_stdin",
+	"exec " + helperName + " environ", "cp stdout $WORK/zz_env",
+	"exec " + helperName + " pwd", "cp stdout $WORK/zz_cd",
 }
 
 // Planted describes what a constructive script was built to do.
@@ -673,6 +752,13 @@ func genConstructive(r *common.RNG, id string, cli bool) (*Case, *Planted) {
 			ex = evaluate(c)
 		}
 	}
+	if !ex.Ended && !cli && r.Chance(1, 2) {
+		trial := *c
+		trial.Lines = append(append([]string{}, c.Lines...), epilogue...)
+		if tex := evaluate(&trial); tex.Known && tex.Verdict == ex.Verdict {
+			c.Lines = trial.Lines
+		}
+	}
 	return c, pl
 }
 
@@ -712,6 +798,9 @@ func genWild(r *common.RNG, id string) *Case {
 			cand = x.okLine()
 		}
 		c.Lines = append(c.Lines, strings.Split(cand, "\n")...)
+	}
+	if r.Chance(1, 2) {
+		c.Lines = append(c.Lines, epilogue...)
 	}
 	return c
 }
